@@ -310,7 +310,9 @@ class PropertyRun:
                 self.crashes.append(f"{rep.label}: zero obligations generated (vacuous)")
             for dp in rep.vacuity.get("dead_paths", []):
                 self.crashes.append(f"{rep.label}: contradictory assumptions on path {dp} (vacuous proof)")
-            if rep.vacuity.get("requires_sat") not in ("sat",):
+            if rep.vacuity.get("requires_sat") in ("unsat",):
+                self.crashes.append(f"{rep.label}: contradictory precondition")
+            elif rep.vacuity.get("requires_sat") not in ("sat", "sat-without-lemmas", "unknown"):
                 self.undecided.append(f"{rep.label}: satisfiability of the precondition: {rep.vacuity.get('requires_sat')}")
             failed_keys = set()
             searched = {}
